@@ -1,6 +1,8 @@
 package symx
 
 import (
+	"math/big"
+	"regexp"
 	"regexp/syntax"
 
 	"golang.org/x/tools/go/ssa"
@@ -155,7 +157,103 @@ func (e *Exec) regexMatch(pattern string, s Str) *sym.Term {
 	return matched
 }
 
+// sampleString pins the symbolic bytes of s to one concrete assignment and returns it. Three samples are followed (a
+// forked decision, like a choice): the solver's own model, one preferring bytes with bit 5 clear (upper-case letters) and
+// one preferring bit 5 set (lower-case letters, digits). This is a stated sampling, used only where an operation on
+// symbolic text has no symbolic model (sub-match extraction): whatever is found afterwards is found for a real input.
+func (e *Exec) sampleString(s Str, what string) string {
+	tb := e.tb
+	anySym := false
+	for _, b := range s.B {
+		if !b.IsConst() {
+			anySym = true
+		}
+	}
+	if anySym {
+		sel := e.freshVar("sample", 8)
+		e.assume(tb.ULt(sel, tb.Const(8, 3)))
+		k := e.concretize(sel, "sample")
+		if k > 0 {
+			for _, b := range s.B {
+				if b.IsConst() {
+					continue
+				}
+				c := tb.Eq(tb.And(b, tb.Const(8, 0x20)), tb.Const(8, 0))
+				if k == 2 {
+					c = tb.Not(c)
+				}
+				if r, _ := e.check(c); r == sym.Sat {
+					e.addPC(c)
+				}
+			}
+		}
+		r, m := e.check()
+		if r != sym.Sat || m == nil {
+			e.end("infeasible", "no sample of the text at "+what)
+		}
+		memo := map[int]*big.Int{}
+		for _, b := range s.B {
+			if b.IsConst() {
+				continue
+			}
+			v, ok := tb.Eval(b, m, memo)
+			if !ok {
+				panic(unsupported(what + ": text depends on an uninterpreted value"))
+			}
+			e.addPC(tb.Eq(b, tb.ConstBig(8, v)))
+		}
+		e.model = m
+		e.rep.Stubs["SAMPLED text at "+what+" (3 concrete samples of the symbolic text are followed; sub-match extraction has no symbolic model)"]++
+		out := make([]byte, len(s.B))
+		for i, b := range s.B {
+			if b.IsConst() {
+				out[i] = byte(b.Uint64())
+			} else {
+				v, _ := tb.Eval(b, m, memo)
+				out[i] = byte(v.Uint64())
+			}
+		}
+		return string(out)
+	}
+	cs, _ := concreteString(s)
+	return cs
+}
+
 func init() {
+	rePattern := func(a []Value) string {
+		pat, _ := concreteString(a[0].(Ptr).Obj.Cells[0].(Str))
+		return pat
+	}
+	intrinsics["(*regexp.Regexp).FindStringSubmatch"] = func(e *Exec, fn *ssa.Function, a []Value) Value {
+		pat := rePattern(a)
+		s := a[1].(Str)
+		// whether it matches at all is decided symbolically; the groups are extracted from a sampled text
+		if _, ok := concreteString(s); !ok {
+			if !e.branch(e.regexMatch(pat, s)) {
+				return Slice{}
+			}
+		}
+		cs := e.sampleString(s, "regexp.FindStringSubmatch")
+		groups := regexp.MustCompile(pat).FindStringSubmatch(cs)
+		if groups == nil {
+			return Slice{}
+		}
+		parts := make([]Str, len(groups))
+		for i, g := range groups {
+			parts[i] = e.strConst(g)
+		}
+		return e.strSliceValue(parts)
+	}
+	intrinsics["(*regexp.Regexp).SubexpIndex"] = func(e *Exec, fn *ssa.Function, a []Value) Value {
+		name, ok := concreteString(a[1].(Str))
+		if !ok {
+			panic(unsupported("regexp.SubexpIndex with symbolic name"))
+		}
+		return e.tb.ConstI(64, int64(regexp.MustCompile(rePattern(a)).SubexpIndex(name)))
+	}
+	intrinsics["(*regexp.Regexp).NumSubexp"] = func(e *Exec, fn *ssa.Function, a []Value) Value {
+		return e.tb.ConstI(64, int64(regexp.MustCompile(rePattern(a)).NumSubexp()))
+	}
 	intrinsics["regexp.MatchString"] = func(e *Exec, fn *ssa.Function, a []Value) Value {
 		pat, ok := concreteString(a[0].(Str))
 		if !ok {
